@@ -529,37 +529,13 @@ impl DbInner {
 							Operation::InsertTree(..) => {
 								let (root_data, node_values) = column.claim_tree_values(&change)?;
 
-								let trees = self.trees.read();
-								if let Some(column_trees) = trees.get(&col) {
-									for (hash, count) in &column_trees.to_dereference {
-										assert!(*count > 0);
-
-										// Check if TreeReader is active for this tree
-										let mut tree_active = false;
-										if let Some(reader) = column_trees.readers.get(hash) {
-											let reader = reader.upgrade();
-											if let Some(reader) = reader {
-												if reader.is_locked() {
-													tree_active = true;
-												}
-											}
-										}
-										if tree_active {
-											commit
-												.indexed
-												.entry(col)
-												.or_insert_with(|| IndexedChangeSet::new(col))
-												.used_trees
-												.insert(*hash);
-										}
-									}
-								}
-								drop(trees);
-								#[cfg(parity_db_verif)]
-								crate::verif::emit(
-									"UsedTrees",
-									&[commit.indexed.get(&col).map_or(0, |c| c.used_trees.len() as u64)],
-								);
+								// The trees this insertion may share nodes with (`used_trees`) are
+								// collected when the commit is queued, see `commit_raw`.
+								commit
+									.indexed
+									.entry(col)
+									.or_insert_with(|| IndexedChangeSet::new(col))
+									.inserts_tree = true;
 
 								let root_operation = Operation::Set(change.key(), root_data);
 								commit
@@ -717,6 +693,39 @@ impl DbInner {
 		}
 		for iterset in commit.btree_indexed.values() {
 			iterset.validate(&self.options)?;
+		}
+
+		// Trees with a queued dereference whose reader lock is held now are marked as used by the
+		// tree insertions of this commit. This is read under the queue lock: a dereference that is
+		// committed later is queued behind this commit, one that was committed earlier is seen here.
+		let mut commit = commit;
+		for (col, indexed) in commit.indexed.iter_mut() {
+			if !indexed.inserts_tree {
+				continue
+			}
+			let trees = self.trees.read();
+			if let Some(column_trees) = trees.get(col) {
+				for (hash, count) in &column_trees.to_dereference {
+					assert!(*count > 0);
+
+					// Check if TreeReader is active for this tree
+					let mut tree_active = false;
+					if let Some(reader) = column_trees.readers.get(hash) {
+						let reader = reader.upgrade();
+						if let Some(reader) = reader {
+							if reader.is_locked() {
+								tree_active = true;
+							}
+						}
+					}
+					if tree_active {
+						indexed.used_trees.insert(*hash);
+					}
+				}
+			}
+			drop(trees);
+			#[cfg(parity_db_verif)]
+			crate::verif::emit("UsedTrees", &[indexed.used_trees.len() as u64]);
 		}
 
 		let mut overlay = self.commit_overlay.write();
@@ -2273,6 +2282,7 @@ pub struct IndexedChangeSet {
 	pub changes: Vec<Operation<Key, RcValue>>,
 	pub node_changes: Vec<NodeChange>,
 	pub used_trees: HashSet<Key>,
+	pub inserts_tree: bool,
 }
 
 impl IndexedChangeSet {
@@ -2282,6 +2292,7 @@ impl IndexedChangeSet {
 			changes: Default::default(),
 			node_changes: Default::default(),
 			used_trees: Default::default(),
+			inserts_tree: false,
 		}
 	}
 
